@@ -291,7 +291,7 @@ impl Prop for C10 {
         let c = "hand-written probes of compiler-synthesised names (__dt0, feed_id0, __lambda_arg_0, record_update_temp), one fresh process per case; the user's variable is renamed";
         let (na, nb) = match tier {
             Tier::Quick => (6000, 6000),
-            Tier::Thorough => (30_000, 70_000),
+            Tier::Thorough => (120_000, 280_000),
         };
         vec![
             Space { name: "all", size: na, exhaustive: false, chunk: 100, case_timeout_s: 30.0, what: a },
